@@ -15,4 +15,6 @@ CmdsGH == {"G", "H"}
 CmdsAGH == {"A", "G", "H"}
 CodesOkErr == {"ok", "err"}
 CmdsAB == {"A", "B"}
+CmdsAC == {"A", "C"}
+CmdsCR == {"C", "R"}
 =============================================================================
